@@ -87,6 +87,8 @@ def prepare_unit(u, bdir):
         for e in ex.values():
             for r in e.get('pre_rewrites') or []:
                 fired.append(dict(r, scope=e['id']))
+            for rf in e.get('rangefor') or []:
+                fired.append({'id': 'rangefor-desugar', 'scope': e['id'], 'count': 1, 'why': 'range-based for over %s desugared per ISO C++11 [stmt.ranged] (iterator loop; the loop variable is a copy of *it)' % rf['var'], 'pattern': '', 'repl': ''})
             if e.get('wrapped_region_header'):
                 fired.append({'id': 'wrap-region', 'scope': e['id'], 'count': 1, 'why': 'statement region wrapped into a function with the unit-supplied header', 'pattern': '', 'repl': e['wrapped_region_header']})
             if e.get('unroll'):
